@@ -250,6 +250,14 @@ namespace
                     return SIZE_MAX; // every n is representable for 1-byte elements
                 return rng.coin() ? maxn + 1 + rng.below(3) : (rng.coin() ? SIZE_MAX - rng.below(3) : ((uint64_t)1 << 63) / es * 2 + rng.below(es));
             default:
+                if (s.capacity >= ((uint64_t)1 << 32) && rng.coin())
+                {
+                    // single requests around the 32-bit boundaries of the byte count (only heaps that can grant them get them)
+                    family = "gigabytes";
+                    static const uint64_t B[] = { (uint64_t)1 << 31, ((uint64_t)1 << 32) - (2u << 20), (uint64_t)1 << 32, ((uint64_t)1 << 32) + 64, (uint64_t)6 << 30, (uint64_t)1 << 33 };
+                    uint64_t bytes = B[rng.below(6)] + (uint64_t)rng.range(-4096, 4096);
+                    return bytes / es + (rng.coin() ? 1 : 0);
+                }
                 family = "medium";
                 return rng.below(5000);
             }
@@ -262,7 +270,7 @@ namespace
             s.reuse = (int)rng.below(3);
             s.exact_align = rng.chance(3, 4);
             s.zero_null = rng.coin();
-            s.capacity = rng.pick<uint64_t>({ 64u << 10, 256u << 10, 1u << 20, 4u << 20, 64u << 20 });
+            s.capacity = rng.pick<uint64_t>({ 64u << 10, 256u << 10, 1u << 20, 4u << 20, 64u << 20, 64u << 20, (uint64_t)9 << 30, (uint64_t)48 << 30 });
             if (s.capacity <= (256u << 10))
                 ++fc_capacity;
             s.junk = (unsigned)rng.pick<unsigned>({ 0x00, 0xa5, 0xff, 0xcd });
